@@ -34,12 +34,13 @@ class Scn:
         self.__dict__.update(locals())
 
     def mods(self):
-        return ["a", "b"] if self.topo == "T1" else ["a", "b", "c"]
+        return ["a", "b"] if self.topo in ("T1", "T1R") else ["a", "b", "c"]
 
     def constants(self):
         t = self.topo
-        chans = "{1}" if t == "T1" else "{1, 2}"
-        return (f"Mods <- {'ModsAB' if t == 'T1' else 'ModsABC'} Stages <- {self.stages} Stack <- {self.stack} Catch <- {self.catch} EndFail <- {self.endfail} "
+        chans = {"T1": "{1}", "T1R": "{1, 3}"}.get(t, "{1, 2}")
+        
+        return (f"Mods <- {'ModsAB' if t in ('T1', 'T1R') else 'ModsABC'} Stages <- {self.stages} Stack <- {self.stack} Catch <- {self.catch} EndFail <- {self.endfail} "
                 f"Route <- Route{t} GateOwner <- Owner{t}\n Chans = {chans} TxOf <- {self.tx} LatOf <- {self.lat} PolicyOf <- {self.pol} "
                 f"LimitOf <- {self.lim} BytesOf <- {TX[self.tx]['BytesOf']}\n Menu <- {self.menu} StartMenu <- {self.start} "
                 f"MaxInv = {self.max_inv} MaxT = {self.max_t} FixDrain = {'TRUE' if self.fix_drain else 'FALSE'} ReplayScripts <- {self.replay} Inject <- {self.inject}")
@@ -117,11 +118,11 @@ def run_scn(v, wd, prop, scn, mc=True, heap=False):
                             m, {"suite": "net", "field": f, "family": scn.name, "backend": "heap"})
 
 
-def random_scripts(rng, mods, stack, n_inv=10):
+def random_scripts(rng, mods, stack, n_inv=10, bidir=False):
     """One random scenario: per module a list of command lists (the k-th handler invocation executes the k-th)."""
     def cmd(c, g="", d=0, size=1, eat=0):
         return {"c": c, "g": g, "d": d, "size": size, "eat": eat}
-    gates = {"a": ["ao", "at"] if "c" in mods else ["ao"], "b": ["bo"], "c": []}
+    gates = {"a": ["ao", "at"] if "c" in mods else ["ao"], "b": ["bo", "bi"] if bidir else ["bo"], "c": []}
     scn = {}
     for m in mods:
         lists = []
@@ -158,7 +159,7 @@ def run_random(v, wd, prop, scn, count, tag):
     rng = random.Random(vlib.seed() * 7919 + zlib.crc32((prop + tag).encode()) % 100000)
     hc = scn.harness_cfg()
     stack = any(x > 0 for x in hc["stack"].values())
-    scenarios = [random_scripts(rng, scn.mods(), stack) for _ in range(count)]
+    scenarios = [random_scripts(rng, scn.mods(), stack, bidir=(scn.topo == "T1R")) for _ in range(count)]
     for s_ in scenarios:
         for m in "abc":
             s_.setdefault(m, [])
@@ -245,6 +246,8 @@ def random_families(v, wd, prop, tier):
                                 catch="CatchB", max_inv=1000, max_t=14), k, "mixQ")
     run_random(v, wd, prop, Scn("mixD", topo="T2", pol="PolDrop", tx="TxLin", stack="One0", max_inv=1000, max_t=14), k, "mixD")
     run_random(v, wd, prop, Scn("mixF", topo="T2", pol="PolQueue", tx="TxFast", lat="Lat0", stack="Stack2", max_inv=1000, max_t=14), k, "mixF")
+    run_random(v, wd, prop, Scn("mixR", topo="T1R", pol="PolQueue", tx="TxLin", lim="Lim200", stack="One0", max_inv=1000, max_t=14), k, "mixR")
+    run_random(v, wd, prop, Scn("mixT3", topo="T3", pol="PolQueue", tx="TxLin", stack="Stack012", stages="Stages212", max_inv=1000, max_t=14), k, "mixT3")
 
 
 def c07(tier):
@@ -266,6 +269,9 @@ def c07(tier):
         # messages put into the event set from outside before the run (handle_message_on / add_message_onto), competing with
         # the modules' own traffic for the channel
         Scn("inject_queue", pol="PolQueue", max_inv=n - 1, inject="InjectMix"),
+        # both ends of one connection send at once: every direction has its own busy flag and queue
+        Scn("bidir_queue", topo="T1R", menu="MenuBidir", start="StartBidir", pol="PolQueue", max_inv=n + 1),
+        Scn("bidir_drop", topo="T1R", menu="MenuBidir", start="StartBidir", pol="PolDrop", max_inv=n + 1),
     ]
     if tier == "thorough":
         fam.append(Scn("queue_lat0", pol="PolQueue", lat="Lat0", max_inv=n))
@@ -294,6 +300,8 @@ def c09(tier):
         # messages injected from outside for a module that may be down when they arrive
         Scn("life_inject", menu="MenuLife", start="StartLife", tx="TxLin", pol="PolQueue", max_inv=n - 2, max_t=10, inject="InjectMix"),
         Scn("transit", topo="T2", menu="MenuTrans", start="StartTrans", tx="TxLin", pol="PolQueue", max_inv=n, max_t=10),
+        # the channel lies before the transit gate: messages are in flight towards the transit module when it goes down / comes back
+        Scn("transit_after_channel", topo="T3", menu="MenuTrans", start="StartTrans", tx="TxLin", pol="PolQueue", max_inv=n, max_t=10),
     ]
     for s in fam:
         run_scn(v, wd, "C09", s)
@@ -301,6 +309,10 @@ def c09(tier):
     # tasks and timers of a module that is shut down and restarted (requested from a task)
     import c_async
     c_async.family(v, wd, "C09", "life", 2, "ProgsLife", 16, what="module restarted from a task while another task has timers pending")
+    # "after the restart it behaves like a freshly started module": the second incarnation's runtime must have the same
+    # configuration as the first one (61 wake-ups in one poll; tokio::spawn only, see F-C06-1 for spawn_local)
+    c_async.family(v, wd, "C09", "fan_restart62", 62, "ProgsFanRestart", 8, mc=False, module="Gen_AsyncFam", spawn="spawn",
+                   what="fan-out of 61 wake-ups in the second incarnation of a restarted module")
     v.cov["rule"] = ("lifecycle scripts chosen by TLC: module b shuts down / shuts down and restarts (after 0, 1, 2 ticks) from message "
                      "handlers while a keeps sending and scheduling (messages in transit at shutdown, arrivals at the restart instant, "
                      "repeated cycles, one- and two-stage start-up); a transit module c going down while a sends through its gate. The "
@@ -373,6 +385,11 @@ def c14(tier):
     for s in fam:
         run_scn(v, wd, "C14", s)
     random_families(v, wd, "C14", tier)
+    # brackets around the events of a module with tasks (wake-ups, tear-down with unfinished joined tasks): a counting element
+    # must see as many event_end as event_start calls
+    import c_async
+    c_async.family(v, wd, "C14", "task_brackets", 2, "ProgsChan", 14, mc=False,
+                   what="modules with tasks: event_start / event_end balanced over wake-ups and a tear-down that reports join errors")
     v.cov["rule"] = ("processing stacks of 0, 1 and 2 elements (first element from the simulation-wide default stack, further ones appended "
                      "by Module::stack), every message tagged by TLC with the element that consumes it (or none): event_start / incoming / "
                      "handler / event_end entries of every start-up stage, message and tear-down must equal the interpreter's bracket "
